@@ -457,8 +457,12 @@ impl Model {
         // the broker asks another provider or gives up
         let types: Vec<Uuid> = self.intros.keys().copied().collect();
         for t in types {
+            // a provider is being asked, or is about to be asked within this very step (marker not
+            // yet resolved: e.g. the provider that was asked went away and the next one the broker
+            // turns to is a connection whose task is dead)
+            let requery_outstanding = eff.out.get(&usize::MAX).is_some_and(|v| v.iter().any(|e| matches!(e, Exp::Requery(x) if *x == t)));
             let e = self.intros.get_mut(&t).unwrap();
-            let was_queried = e.queried.is_some();
+            let was_queried = e.queried.is_some() || requery_outstanding;
             if e.queried.map(|q| q.0) == Some(c) {
                 e.queried = None;
             }
@@ -474,7 +478,7 @@ impl Model {
                     }
                 }
                 eff.note("introspection:last-provider-gone");
-            } else if was_queried && e.queried.is_none() {
+            } else if was_queried && e.queried.is_none() && !requery_outstanding {
                 eff.out.entry(usize::MAX).or_default().push(Exp::Requery(t));
                 eff.note("introspection:requery-after-disconnect");
             }
